@@ -50,6 +50,8 @@ pub struct Plan {
     /// Batches injected by a peer into the node's mempool port: (at ms, frame bytes).
     pub foreign: Vec<(u64, Vec<u8>)>,
     pub tail_ms: u64,
+    /// Number of client connections the transactions are spread over (round robin).
+    pub clients: usize,
 }
 
 pub struct Outcome {
@@ -173,14 +175,18 @@ pub fn execute(plan: &Plan, seed: u64) -> Outcome {
             });
         }
         // ---- the client
-        let s = TcpStream::connect(addr(TAG_CLIENT, plan.me, SVC_TX)).await.expect("client connect");
-        let mut client = Framed::new(s, LengthDelimitedCodec::new());
-        for (delay, tx) in &plan.txs {
+        let mut conns = Vec::new();
+        for k in 0..plan.clients.max(1) {
+            let s = TcpStream::connect(addr(TAG_CLIENT + k, plan.me, SVC_TX)).await.expect("client connect");
+            conns.push(Framed::new(s, LengthDelimitedCodec::new()));
+        }
+        for (i, (delay, tx)) in plan.txs.iter().enumerate() {
             if *delay > 0 {
                 sleep(Duration::from_millis(*delay)).await;
             }
             evlog::push(Kind::Note { what: format!("client.tx {}", tx.len()) });
-            if client.send(Bytes::from(tx.clone())).await.is_err() {
+            let k = i % conns.len();
+            if conns[k].send(Bytes::from(tx.clone())).await.is_err() {
                 break;
             }
         }
@@ -202,7 +208,7 @@ pub fn execute(plan: &Plan, seed: u64) -> Outcome {
             store_content.insert(d, v);
         }
         let log = evlog::end();
-        drop(client);
+        drop(conns);
         Outcome { log, released: rel, store_content, topo, store_path }
     })
 }
@@ -223,6 +229,7 @@ pub fn judge(plan: &Plan, out: &Outcome, r: &mut Report, bench: bool) -> Vec<Str
     );
     // Transactions as they became readable at the node's transaction port.
     let mut arrived: Vec<(u64, Vec<u8>)> = Vec::new(); // (vt_us, bytes)
+    let mut arrived_by_conn: HashMap<u64, Vec<Vec<u8>>> = HashMap::new();
     // Own batches in order of first transmission; acks written by peers.
     let mut own_order: Vec<Digest> = Vec::new();
     let mut first_peer: Option<usize> = None;
@@ -237,6 +244,7 @@ pub fn judge(plan: &Plan, out: &Outcome, r: &mut Report, bench: bool) -> Vec<Str
         match &ev.kind {
             Kind::FrameIn { frame } if frame.route.svc == SVC_TX && frame.route.dst == me && frame.dir == Dir::ToServer => {
                 arrived.push((ev.vt_us, frame.data.to_vec()));
+                arrived_by_conn.entry(frame.conn).or_default().push(frame.data.to_vec());
             }
             Kind::FrameOut { frame, .. } if frame.route.svc == SVC_MEMPOOL && frame.dir == Dir::ToServer && frame.route.src == me => {
                 if let Parsed::Batch { digest, .. } = &frame.parsed {
@@ -304,6 +312,28 @@ pub fn judge(plan: &Plan, out: &Outcome, r: &mut Report, bench: bool) -> Vec<Str
         // digest-deduplicated sequence merges byte-identical batches: conservation is C11's
         // business in the fault-free workload only.
         r.count("C11.conservation_not_judged_under_faults", 1);
+    } else if plan.clients > 1 {
+        // Several connections: the order in which frames of different connections reach the batch
+        // maker is the scheduler's choice; required are multiset equality and per-connection order.
+        let mut a = flat.clone();
+        let mut b = sent.clone();
+        a.sort();
+        b.sort();
+        if a != b {
+            r.violate("C11", "transactions-not-conserved", format!("{} transactions accepted over {} connections, {} found in batches (multiset differs)", sent.len(), plan.clients, flat.len()), vec![label.clone()]);
+        } else {
+            r.count("C11.transactions_conserved_multiset", flat.len() as u64);
+            r.sit("C11:several_client_connections");
+        }
+        for (conn, txs) in &arrived_by_conn {
+            // transactions of this connection that are unique in the whole run identify themselves
+            let uniq: Vec<&Vec<u8>> = txs.iter().filter(|t| sent.iter().filter(|x| x == t).count() == 1).collect();
+            let set: HashSet<&Vec<u8>> = uniq.iter().cloned().collect();
+            let seen: Vec<&Vec<u8>> = flat.iter().filter(|t| set.contains(t)).collect();
+            if seen != uniq {
+                r.violate("C11", "per-connection-order-broken", format!("transactions of client connection {} appear in the batches in a different order than they were accepted", conn), vec![label.clone()]);
+            }
+        }
     } else if flat != sent {
         // classify
         let what = if flat.len() < sent.len() && sent.starts_with(&flat) {
@@ -320,7 +350,7 @@ pub fn judge(plan: &Plan, out: &Outcome, r: &mut Report, bench: bool) -> Vec<Str
     }
     // ---------------- C11: seal rule ----------------
     let mut cursor = 0usize;
-    for (_d, txs, sealed_at) in &per_batch {
+    for (_d, txs, sealed_at) in per_batch.iter().filter(|_| plan.clients <= 1) {
         let size: usize = txs.iter().map(|t| t.len()).sum();
         let sealed_at = *sealed_at;
         if txs.is_empty() {
@@ -492,6 +522,7 @@ pub fn plan_c11(rng: &mut StdRng) -> Plan {
         policies: vec![AckPolicy::Delay(0); n],
         foreign,
         tail_ms: 20 * max_batch_delay + 2_000,
+        clients: if rng.gen_bool(0.3) { rng.gen_range(2, 4) } else { 1 },
     }
 }
 
@@ -531,7 +562,7 @@ pub fn plan_c12(rng: &mut StdRng) -> Plan {
     let batch_size = [1usize, 50, 400][rng.gen_range(0, 3)];
     let count = rng.gen_range(1, 25);
     let txs = (0..count).map(|_| ([0u64, 0, 1, 30, 200][rng.gen_range(0, 5)], { let l = rng.gen_range(1, 120); make_tx(rng, l, false) })).collect();
-    Plan { n, stakes, me, batch_size, max_batch_delay: [5u64, 50][rng.gen_range(0, 2)], txs, policies, foreign: vec![], tail_ms: 70_000 }
+    Plan { n, stakes, me, batch_size, max_batch_delay: [5u64, 50][rng.gen_range(0, 2)], txs, policies, foreign: vec![], tail_ms: 70_000, clients: 1 }
 }
 
 pub fn run(workload: &str, class: &str, seed: u64, p: &Params) -> RunResult {
